@@ -214,50 +214,62 @@ Definition node_of (e : expr) : node :=
   | _ => NOther
   end.
 
-Section Traversal.
 (* sema.funcs[strings.ToLower(n.Callee)] is defined *)
-Variable known_funcs : list string.
-Definition known (callee : string) : bool := existsb (String.eqb (lower callee)) known_funcs.
+Definition known (funcs : list string) (callee : string) : bool :=
+  existsb (String.eqb (lower callee)) funcs.
 
-(* events e: callbacks issued by sema.check(e).
-   narrow_events e t: callbacks issued by sema.checkWithNarrowing(e, t).
-   The callbacks of a node handled inside checkWithNarrowing (`!`, `&&`, `||`)
-   are not issued: check() is not entered for it.  One structural fixpoint
-   with a mode: None = check, Some t = checkWithNarrowing(_, t). *)
 Definition lhs_truthy (op : logop) : bool := match op with LAnd => false | LOr => true end.
 
-Fixpoint ev (m : option bool) (e : expr) {struct e} : list event :=
+(* The two traversals of the Go code that drive the checker are instances of
+   one function:
+     defd c      the arguments of a call of c are visited
+                 (expr_sema.go: checkFuncCall returns early for an undefined function;
+                  expr_ast.go visitExprNode: always)
+     narrowing   the left operand of && / || goes through checkWithNarrowing
+                 (expr_sema.go: true; visitExprNode: false)
+   gev None e      callbacks issued by sema.check(e)
+   gev (Some t) e  callbacks issued by sema.checkWithNarrowing(e, t): the
+                   `!`, `&&`, `||` node handled there gets no callbacks because
+                   check() is not entered for it. *)
+Section Traversal.
+Variable defd : string -> bool.
+Variable narrowing : bool.
+
+Fixpoint gev (m : option bool) (e : expr) {struct e} : list event :=
   let std :=
     match e with
     | EVar _ _ | ENull _ | EBool _ _ | EInt _ _ | EFloat _ _ | EStr _ _ =>
         [Enter (node_of e); Leave (node_of e)]
-    | EDeref r _ => Enter (node_of e) :: ev None r ++ [Leave (node_of e)]
-    | EArrDeref r => Enter (node_of e) :: ev None r ++ [Leave (node_of e)]
-    | EIndex o i => Enter (node_of e) :: ev None i ++ ev None o ++ [Leave (node_of e)]
-    | ENot _ a => Enter NOther :: ev None a ++ [Leave NOther]
-    | ECmp _ l r => Enter NOther :: ev None l ++ ev None r ++ [Leave NOther]
+    | EDeref r _ => Enter (node_of e) :: gev None r ++ [Leave (node_of e)]
+    | EArrDeref r => Enter (node_of e) :: gev None r ++ [Leave (node_of e)]
+    | EIndex o i => Enter (node_of e) :: gev None i ++ gev None o ++ [Leave (node_of e)]
+    | ENot _ a => Enter NOther :: gev None a ++ [Leave NOther]
+    | ECmp _ l r => Enter NOther :: gev None l ++ gev None r ++ [Leave NOther]
     | ELog op l r =>
         (* checkLogicalOp: checkWithNarrowing(Left, …) then check(Right) *)
-        Enter NOther :: ev (Some (lhs_truthy op)) l ++ ev None r ++ [Leave NOther]
+        Enter NOther :: gev (if narrowing then Some (lhs_truthy op) else None) l
+                     ++ gev None r ++ [Leave NOther]
     | ECall _ c args =>
-        (* checkFuncCall returns before visiting the arguments of an undefined function *)
-        Enter (NCall c) :: (if known c then flat_map (ev None) args else []) ++ [Leave (NCall c)]
+        Enter (NCall c) :: (if defd c then flat_map (gev None) args else []) ++ [Leave (NCall c)]
     end in
   match m, e with
   | Some t, ELog LAnd l r =>
-      if t then ev None l ++ ev None r                       (* sema.check(Left); sema.check(Right) *)
-      else ev (Some false) l ++ ev None r                    (* sema.checkLogicalOp(n) *)
+      if t then gev None l ++ gev None r                     (* sema.check(Left); sema.check(Right) *)
+      else gev (Some false) l ++ gev None r                  (* sema.checkLogicalOp(n) *)
   | Some t, ELog LOr l r =>
-      if t then ev (Some true) l ++ ev None r
-      else ev None l ++ ev None r
-  | Some t, ENot _ a => ev (Some (negb t)) a
+      if t then gev (Some true) l ++ gev None r
+      else gev None l ++ gev None r
+  | Some t, ENot _ a => gev (Some (negb t)) a
   | _, _ => std
   end.
 
-Definition events (e : expr) : list event := ev None e.
-Definition narrow_events (e : expr) (truthy : bool) : list event := ev (Some truthy) e.
-
 End Traversal.
+
+(* expr_sema.go *)
+Definition ev (funcs : list string) : option bool -> expr -> list event := gev (known funcs) true.
+Definition events (funcs : list string) (e : expr) : list event := ev funcs None e.
+Definition narrow_events (funcs : list string) (e : expr) (truthy : bool) : list event := ev funcs (Some truthy) e.
+
 
 (* VisitExprNode of expr_ast.go (the generic visitor, used by actionlint's own
    tests to drive the checker): every node gets both callbacks, index before
